@@ -19,8 +19,9 @@ RULE = (
     "when dependents are added. Syntactic oracle: dependency argument matches the scheduler's exact grammar "
     "(afterok:ID(:ID)*, hold_jid ID(,ID)*, done(ID)( && done(ID))*) over exactly the ids the scheduler printed for the "
     "incomplete direct deps (C02 oracle). Semantic oracle over the journal: start(J) after end(P) for every expected "
-    "prerequisite P; on Slurm/LSF J has no start event if some P failed or was cancelled. A local-pool lane drives the "
-    "real LocalOps client against a recording server. Non-trivial: a job with >= 2 prerequisites, a prerequisite from "
+    "prerequisite P; on Slurm/LSF J has no start event if some P failed or was cancelled. Local lanes: the real LocalOps client "
+    "against a recording server (deps list == ids the server returned), and the pool's real Scheduler on the virtual-time "
+    "harness with late submissions on already ended prerequisites. Non-trivial: a job with >= 2 prerequisites, a prerequisite from "
     "an earlier invocation, and a failed prerequisite. distinct = (backend, prerequisite-count pattern, failure pattern)."
 )
 ASSUMPTIONS = ["the simulators' dependency semantics (written from the schedulers' documentation) stand in for the real schedulers"]
@@ -34,11 +35,19 @@ RAW_RX = {
 
 def budget(tier):
     if tier == "thorough":
-        return {"cases": 4000, "deadline_s": 900, "case_timeout_s": 240, "floors": {"submissions": 12000, "start_events_checked": 6000, "never_started_checked": 800, "local_enqueues": 1500}}
-    return {"cases": 320, "deadline_s": 110, "case_timeout_s": 120, "floors": {"submissions": 800, "start_events_checked": 400, "never_started_checked": 40, "local_enqueues": 100}}
+        return {"cases": 4000, "deadline_s": 900, "case_timeout_s": 240, "floors": {"submissions": 12000, "start_events_checked": 6000, "never_started_checked": 800, "local_enqueues": 1500, "pool_spawns": 2500}}
+    return {"cases": 320, "deadline_s": 110, "case_timeout_s": 120, "floors": {"submissions": 800, "start_events_checked": 400, "never_started_checked": 40, "local_enqueues": 100, "pool_spawns": 100}}
 
 
 def gen_case(rng, idx, tier):
+    if idx % 5 == 3:
+        # the pool side of the local backend: the real Scheduler on the virtual-time harness, biased to
+        # late submissions whose prerequisites already ended (ok / failed / cancelled / timed out)
+        from .. import poolcase
+
+        c = poolcase.gen_pool_case(rng, faults=False, bias={"exit": 5, "enqueue": 2, "cancel": 2}, max_tasks=8)
+        c["sched"] = "localpool"
+        return c
     if idx % 5 == 4:
         sched = "local"
     else:
@@ -79,7 +88,32 @@ def adversary_step(adv, sim, by, res, p_fail=0.25):
     return True
 
 
+def run_localpool(case):
+    import shutil
+    import tempfile
+
+    from .. import poolcase, vloop
+
+    res = Result()
+    d = tempfile.mkdtemp(prefix="gwfv-pool-")
+    try:
+        h = vloop.run_harness(case, d)
+        poolcase.eval_c11(h, res)
+        res.monitors["pool_spawns"] = res.monitors.pop("spawn_events", 0)
+        res.monitors.pop("bad_dep_tasks", None)
+        for v in res.violations:
+            v["mech"] = "localpool:" + v["mech"]
+        res.sig = ("localpool", poolcase.event_string(h, 40))
+        late = any(e["kind"] == "enqueue" and e["deps"] for e in h.events)
+        res.nontrivial = late and any(e["kind"] == "exit" and e["code"] != 0 for e in h.events)
+    finally:
+        shutil.rmtree(d, ignore_errors=True)
+    return res
+
+
 def run_case(case):
+    if case["sched"] == "localpool":
+        return run_localpool(case)
     if case["sched"] == "local":
         return run_local(case)
     res = Result()
